@@ -117,6 +117,7 @@ fn main() {
         "c17rows" => mat::c17rows(rest),
         "c16classes" => um::c16classes(rest),
         "c16tiny" => um::c16tiny(rest),
+        "seqhist" => um::seqhist(rest),
         "zstdcat" => util::zstdcat(rest),
         "c20exec" => dictb::c20exec(rest),
         "c14rows" => fmt::c14rows(rest),
